@@ -66,7 +66,7 @@ pub fn bias_roundtrip(m: BiasMsg, sig_index: usize, sat: u8, pat: u16) -> Result
 }
 
 pub fn run(ctx: &Ctx, replay: Option<&J>) -> CheckResult {
-    let maxw: u32 = ctx.tier.pick(24, 32);
+    let maxw: u32 = ctx.tier.pick(30, 32);
     let rule = format!(
         "every df! field found in /repo/src/df/dfs.rs ({} fields) x bit patterns: ALL 2^w patterns for w<={} (enumerated, distinct by construction); \
          for wider fields boundary windows of 2^{} patterns around 0, the sign boundary and the top, one-hot/one-cold patterns and 2^{} seeded random \
